@@ -52,4 +52,16 @@ theorem C15_head_calls_are_get_calls_minus_fetch (q : Req) (e : Ent) (now : Nat)
     rh.calls = rg.calls.filter (fun c => !c.isGetRange) :=
   head_calls_eq_get_calls_sans_fetch q e now rg rh hg hh
 
+/-- Non-vacuity of `C15_head_calls_are_get_calls_minus_fetch`: a single-range GET asks for
+validators, length, the range and the headers; the HEAD asks the same minus the range. -/
+example :
+    ∃ rg rh,
+      serve { method := .get, range := some [98, 121, 116, 101, 115, 61, 49, 45, 50] }
+            { len := 10 } 0 = .ok rg ∧
+      serve { method := .head, range := some [98, 121, 116, 101, 115, 61, 49, 45, 50] }
+            { len := 10 } 0 = .ok rh ∧
+      rg.calls = [.lastModified, .etag, .len, .getRange 1 3, .addHeaders] ∧
+      rh.calls = [.lastModified, .etag, .len, .addHeaders] := by
+  refine ⟨_, _, rfl, rfl, ?_, ?_⟩ <;> decide
+
 end HS
